@@ -308,7 +308,8 @@ def classify(h, r):
     if st == "failed":
         real = [c for c in r.get("failed_checks", []) if "unwinding assertion" not in c["description"]]
         if r.get("unwind_fail") and not real:
-            return "inconclusive", "unwinding assertion failed: bound too small for this tree"
+            where = sorted({"%s (%s:%s)" % (c["function"], c["file"], c["line"]) for c in r.get("failed_checks", [])})
+            return "inconclusive", "unwinding assertion failed: bound too small for this tree: " + "; ".join(where[:4])
         unsupported = [c for c in real if "is not currently supported by Kani" in c["description"] or "unsupported" in c["description"].lower()]
         if real and len(unsupported) == len(real):
             return "inconclusive", "unsupported construct reached"
